@@ -26,3 +26,6 @@ import RosedVerif.Model.GenEq.Paras
 import RosedVerif.Model.GenEq.WrapOpts
 import RosedVerif.Model.GenEq.IndentOpts
 import RosedVerif.Model.GenEq.InsertTable
+import RosedVerif.Model.GenEq.Gem
+import RosedVerif.Model.GenEq.GemOps
+import RosedVerif.Model.GenEq.GemInv
